@@ -172,7 +172,14 @@ Definition attrs_check (c : acase) : bool :=
 
 (* what the harness writes: the run and, when the value is of the attribute route and came back, its attributes *)
 Definition xcase : Type := (case * option acase)%type.
+(* constructors with explicit argument types (the case terms are elaborated against them) *)
+Definition X (c : case) (a : option acase) : xcase := (c, a).
+Definition mkacase (req : nat) (l : list (attr str)) (ds : list (decl str)) (ob : aobs) : acase := (req, l, ds, ob).
 
 Definition ser_mismatches (cs : list xcase) : list N := failing (fun c => ser_check (fst c)) cs.
 Definition attrs_mismatches (cs : list xcase) : list N :=
   failing (fun c => match snd c with Some a => attrs_check a | None => true end) cs.
+
+(* strings of the case files: printable ASCII is written as a string literal (fast to elaborate) *)
+Definition b (s : String.string) : str := bytes_of s.
+From Coq Require Export Strings.String.
